@@ -1281,6 +1281,15 @@ fn gen_singles(spec: &Spec) -> Vec<Case> {
                 v.push(Case::one(c, vec![(i, files_of_shape(&sh, i))]));
             }
         }
+        // several files with the same (base) name, as produced by equally named files in different directories:
+        // identical line sets, overlapping line sets, and a differently named file in between
+        for i in 0..spec.n(c) {
+            let f = |name: &str, ls: &[i32]| -> (String, Vec<i32>) { (name.to_string(), ls.to_vec()) };
+            v.push(Case::one(c, vec![(i, vec![f("Token.sol", &[4, 17]), f("Token.sol", &[4, 17])])]));
+            v.push(Case::one(c, vec![(i, vec![f("Token.sol", &[4]), f("Token.sol", &[4]), f("Token.sol", &[4])])]));
+            v.push(Case::one(c, vec![(i, vec![f("a.sol", &[4, 17]), f("b.sol", &[17, 20]), f("a.sol", &[4, 17])])]));
+            v.push(Case::one(c, vec![(i, vec![f("a.sol", &[4, 17]), f("a.sol", &[17, 20])])]));
+        }
     }
     v
 }
